@@ -47,9 +47,11 @@ def declare(U):
     m.ensures("self.isset")
     m = EV.method("is_set", {}, BOOL, trusted=True)
     m.ensures("result == self.isset")
-    m = EV.method("wait", {}, BOOL, trusted=True)      # returns once the flag is set (by another thread): liveness of the setter not claimed
+    # wait(): returns once the flag is set (by another thread; liveness of the setter is not claimed); with a timeout it may give up
+    m = EV.method("wait", {"timeout": OptS(REAL)}, BOOL, trusted=True)
+    m.default_expr("timeout", "None")
     m.modifies("self.isset")
-    m.ensures("self.isset")
+    m.ensures("implies(is_none(timeout), self.isset) and result == self.isset")
     m = U.library("threading.Event", {}, RefS("Event"))
     m.ensures("result != None and fresh(result) and not result.isset")
     TH = E.cls("Thread", fields={}, ghost={"started": BOOL, "done": BOOL})
